@@ -1,6 +1,7 @@
 from textwrap import dedent
 
 from parso import split_lines
+from parso.tree import search_ancestor
 
 from jedi import debug
 from jedi.api.exceptions import RefactoringError
@@ -355,7 +356,11 @@ def _find_inputs_and_outputs(module_context, context, nodes):
                 outputs.append(name.value)
         else:
             if name.value not in inputs:
-                name_definitions = context.goto(name, name.start_pos)
+                # As in inference, the right hand side of `x = x + 1` does
+                # not see the `x` that the statement itself defines.
+                stmt = search_ancestor(name, 'expr_stmt')
+                position = name.start_pos if stmt is None else stmt.start_pos
+                name_definitions = context.goto(name, position)
                 if not name_definitions \
                         or _is_name_input(module_context, name_definitions, first, last):
                     inputs.append(name.value)
